@@ -43,6 +43,8 @@ pub struct HState
     pub used_scripts: Vec<Script>,
     /// one-off slots whose `once` op has been applied (only then may other ops name the system)
     pub once_applied: Vec<bool>,
+    /// signals of the systems spawned with `spawn_rc_system_command`
+    pub rc_signals: HashMap<usize, AutoDespawnSignal>,
 }
 
 thread_local!
@@ -445,6 +447,13 @@ fn issue(op: &Op, r: i64, i: usize, c: &mut Commands, acc: Option<&mut Access>, 
             let e = sys_entity(*s).unwrap();
             if let Some(mut ec) = c.get_entity(e) { ec.try_despawn(); ret = json!(1); }
         }
+        Op::RcDrop(s) =>
+        {
+            // takes effect now, not when the queue is applied
+            let had = with_state(|st| st.rc_signals.remove(&(*s as usize)));
+            ret = json!(had.is_some() as i32);
+            drop(had);
+        }
         Op::Reg(m, s, b, k) =>
         {
             let token = c.react().with(bundle(b), SystemCommand(sys_entity(*s).unwrap()), mode_of(m));
@@ -656,6 +665,7 @@ pub fn run_program(cfg: &Config, steps: &mut dyn Iterator<Item = Step>, source: 
         runs: 0,
         used_scripts: Vec::new(),
         once_applied: vec![false; cfg.nonce],
+        rc_signals: HashMap::new(),
     }));
 
     {
@@ -672,6 +682,12 @@ pub fn run_program(cfg: &Config, steps: &mut dyn Iterator<Item = Step>, source: 
         }
         for i in 1..=nsys
         {
+            if cfg.rcsys.contains(&i)
+            {
+                let sig = bevy_cobweb::prelude::spawn_rc_system_command(world, plain_system(i));
+                with_state(|st| { st.sys[i] = Some(sig.entity()); st.rc_signals.insert(i, sig); });
+                continue;
+            }
             let sc = if cfg.kinds[i - 1] == "excl" { world.spawn_system_command(exclusive_system(i)) }
                      else { world.spawn_system_command(plain_system(i)) };
             with_state(|st| st.sys[i] = Some(*sc));
@@ -708,7 +724,7 @@ pub fn run_program(cfg: &Config, steps: &mut dyn Iterator<Item = Step>, source: 
     let appsys = if cfg.app.is_empty() { 0 } else { discover(&mut app, app_first) };
 
     emit(json!({"t":"cfg","nsys":nsys,"nonce":cfg.nonce,"nent":cfg.nent,"nworld":cfg.nworld,"neworld":cfg.neworld,
-        "hier":cfg.hier,"app":cfg.to_json()["app"],"appsys":appsys,"kinds":cfg.kinds}));
+        "hier":cfg.hier,"app":cfg.to_json()["app"],"appsys":appsys,"rcsys":cfg.rcsys,"kinds":cfg.kinds}));
     let mut panicked = false;
     let mut n = 0usize;
     while let Some(step) = steps.next()
